@@ -33,3 +33,8 @@ CHECKS['C07'] = _c('exploration',
     "Reference-model monitoring of the real SharesManager on a real temp file system: seeded histories (<= 8 ops) of add/remove/update/scan/rescan/disk mutations/settings reload/cache round trip, ~45 queries per history built from the tree's own words; every query result is compared with a character-scanning reference predicate over a reference ownership index; after every full scan the index is compared with 'walk the disk, innermost owner wins'; stats compared with the index.",
     "Alphabet restricted to characters whose lower() is 1:1; queries without include/wildcard term are not judged; attribute scanning (mutagen) not covered; trees <= ~30 files.",
     "differential monitoring against an executable reference model (index + predicate)")
+
+CHECKS['C03'] = _c('exploration',
+    "Trace-automaton monitoring of the real transfer state machine: M1 a listener registered first on every Transfer checks every notified (old,new) against the pinned graph and for continuity; M2 observes every state operation INSIDE the transfer's own lock (instrumented asyncio.Lock subclass installed at Transfer creation): state dispatched on vs state at lock time, result, and a snapshot of file/reasons/timestamps/tasks before and after (refused operations must change nothing); M3 the public manager calls raise iff refused. Workloads: the exhaustive 187-cell state x operation x direction matrix, thousands of seeded 2-3-operation races while a slow operation holds the lock, and live two-client transfers with user calls landing at seeded instants.",
+    "pinned/transfer_graph.json is the documented graph; in the race workload the slow transfer task is a harness coroutine that honours cancellation after k loop steps; the live workload uses the real tasks.",
+    "trace automaton over listener notifications + invariant hook inside the object's own lock")
